@@ -674,3 +674,97 @@ Proof.
   unfold wire_attrs, api_attrs. rewrite !Forall_forall. intros H a Hin Hc v Hv.
   destruct (H a Hin Hc) as (segs & _ & E). rewrite E in Hv. discriminate.
 Qed.
+
+(* ------------------------------------------------------------------ *)
+(* known finding C14-1: general as-path regular expressions are never
+   evaluated, so inside the class the code departs from the reference      *)
+
+Definition w_stmt : stmt :=
+  {| st_name := 1;
+     st_conds := [CSet 1 MAny (SAsPath {| ap_single := []; ap_regex := [1] |})];
+     st_disp := Some DReject;
+     st_act := {| ac_nexthop := None; ac_comm := None; ac_local_pref := None; ac_med := None;
+                  ac_prepend := None; ac_ext := None; ac_large := None; ac_origin := None |} |}.
+Definition w_asg : assignment := {| as_disp := DAccept; as_pols := [{| p_name := 1; p_stmts := [w_stmt] |}] |}.
+Definition w_ctx : ctx :=
+  {| x_src := {| s_is_local := false; s_remote_addr := IP4 1; s_local_addr := IP4 2; s_remote_asn := 65001; s_local_asn := 65000 |};
+     x_net := NV4 167772160 8; x_orig_nh := None; x_confed := false; x_local := IP4 2; x_peer := IP4 1 |}.
+Definition w_route : rstate :=
+  {| r_attrs := [{| a_code := AS_PATH; a_flags := 64; a_data := DBin [2; 1; 0; 0; 253; 233] |}]; r_nh := None |}.
+
+Lemma eval_code_eq_spec_refuted_lemma :
+  exists (rxa : N -> list (list N) -> bool) a x r,
+    Known_C14_1 a /\ wf_assignment a /\
+    (forall rc re rl, eval_code rc re rl a x r = Ok (DAccept, r)) /\
+    (forall rc re rl, eval_spec rc re rl rxa a x r DReject r).
+Proof.
+  exists (fun _ _ => true), w_asg, w_ctx, w_route. split; [|split; [|split]].
+  - exists {| p_name := 1; p_stmts := [w_stmt] |}, w_stmt,
+      (CSet 1 MAny (SAsPath {| ap_single := []; ap_regex := [1] |})).
+    repeat split; try (left; reflexivity). cbn. discriminate.
+  - repeat constructor.
+  - intros rc re rl. vm_compute. reflexivity.
+  - intros rc re rl. unfold eval_spec, flat_stmts. cbn [as_pols w_asg flat_map p_stmts app as_disp].
+    eapply R_decide.
+    + constructor; [|constructor]. cbn [cond_holds opt_holds]. exists (inr 1). split; [left; reflexivity|].
+      vm_compute. reflexivity.
+    + exists (r_attrs w_route). split; reflexivity.
+    + split; [reflexivity|discriminate].
+Qed.
+
+(* ------------------------------------------------------------------ *)
+(* non-vacuity: an assignment outside the known class whose evaluation
+   exercises nested prefix entries, an as-path pattern, accumulation and a
+   deciding statement                                                      *)
+
+Definition ex_pset : pset :=
+  {| ps_v4 := [ {| pe_key := 167772160; pe_mask := 8; pe_raw := 167772160; pe_min := 8; pe_max := 32 |};
+                {| pe_key := 167837696; pe_mask := 16; pe_raw := 167837696; pe_min := 16; pe_max := 16 |} ];
+     ps_v6 := []; ps_zero := None; ps_zero6 := None |}.
+Definition no_act : actions :=
+  {| ac_nexthop := None; ac_comm := None; ac_local_pref := None; ac_med := None;
+     ac_prepend := None; ac_ext := None; ac_large := None; ac_origin := None |}.
+Definition ex_s1 : stmt :=
+  {| st_name := 1; st_conds := [CSet 1 MAny (SPrefix ex_pset)]; st_disp := None;
+     st_act := {| ac_nexthop := None; ac_comm := Some (CaAdd, [4259840100]); ac_local_pref := Some 200; ac_med := None;
+                  ac_prepend := None; ac_ext := None; ac_large := None; ac_origin := None |} |}.
+Definition ex_s2 : stmt :=
+  {| st_name := 2;
+     st_conds := [CSet 1 MAll (SAsPath {| ap_single := [{| sg_kind := 2; sg_a := 65001; sg_b := 0 |}]; ap_regex := [] |});
+                  CSet 1 MAny (SComm [CExact 4259840100]); CLocalPrefEq 200];
+     st_disp := Some DReject; st_act := no_act |}.
+Definition ex_asg : assignment :=
+  {| as_disp := DAccept; as_pols := [{| p_name := 1; p_stmts := [ex_s1] |}; {| p_name := 2; p_stmts := [ex_s2] |}] |}.
+Definition ex_ctx : ctx :=
+  {| x_src := x_src w_ctx; x_net := NV4 167838208 24; x_orig_nh := None; x_confed := false; x_local := IP4 2; x_peer := IP4 1 |}.
+Definition ex_route : rstate :=
+  {| r_attrs := [{| a_code := AS_PATH; a_flags := 64; a_data := DBin [2; 1; 0; 0; 253; 233; 2; 0] |}]; r_nh := None |}.
+
+Example ex_hypotheses : wf_assignment ex_asg /\ ~ Known_C14_1 ex_asg /\ api_attrs (r_attrs ex_route) /\ wire_attrs (r_attrs ex_route).
+Proof.
+  split; [|split; [|split]].
+  - repeat constructor; vm_compute; congruence.
+  - intros (p & s & c & Hp & Hs & Hc & Hr).
+    destruct Hp as [<-|[<-|[]]]; destruct Hs as [<-|[]]; cbn [st_conds ex_s1 ex_s2] in Hc;
+      repeat (destruct Hc as [<-|Hc]; [cbn in Hr; try contradiction; try (apply Hr; reflexivity)|]); try destruct Hc.
+  - repeat constructor. intros _ v. discriminate.
+  - repeat constructor. intros _. exists [(2, [65001]); (2, [])]. split; [|reflexivity].
+    repeat constructor; cbn; try lia.
+Qed.
+
+Example ex_evaluates rc re rl :
+  exists r', eval_code rc re rl ex_asg ex_ctx ex_route = Ok (DReject, r') /\ length (r_attrs r') = 3%nat.
+Proof. eexists. split; vm_compute; reflexivity. Qed.
+
+(* ------------------------------------------------------------------ *)
+(* final statements pinned in Props/C14.v                               *)
+
+Lemma C14_eval_never_panics_api :
+  forall (rc re rl : N -> N -> bool) a x r,
+    api_attrs (r_attrs r) -> exists d r', eval_code rc re rl a x r = Ok (d, r').
+Proof. intros rc re rl a x r H. exact (eval_total_api rc re rl (fun _ _ => true) a x r H). Qed.
+
+Lemma C14_eval_never_panics_wire :
+  forall (rc re rl : N -> N -> bool) a x r,
+    wire_attrs (r_attrs r) -> exists d r', eval_code rc re rl a x r = Ok (d, r').
+Proof. intros rc re rl a x r H. apply C14_eval_never_panics_api. apply wire_is_api. exact H. Qed.
